@@ -152,8 +152,9 @@ func (vc *vectorIndexCache) createAndCacheLOCKED(fieldID uint16, mem []byte,
 
 		docIDUint32 := uint32(docID)
 		if isExceptNotEmpty && except.Contains(docIDUint32) {
+			// excluded for this caller only: the maps below are cached and
+			// shared with later callers, which may exclude other documents
 			vecIDsToExclude = append(vecIDsToExclude, vecID)
-			continue
 		}
 		vecDocIDMap[vecID] = docIDUint32
 		if loadDocVecIDMap {
